@@ -324,6 +324,24 @@ func c08EdDSA(t *rapid.T, ev *evProp) {
 			violationOrKnown(t, ev, "C08/eddsa/keyroundtrip", "unmarshalled key signs differently\n%s", ctx)
 		}
 	}
+	// the same object re-keyed after it has signed (UnmarshalBinary of another key pair): it must sign
+	// exactly like crypto/ed25519 under the NEW key (nothing derived from the old key may survive)
+	if rapid.Bool().Draw(t, "rekey") {
+		seed2 := rapid.SliceOfN(rapid.Byte(), 32, 32).Draw(t, "seed2")
+		other := eddsa.NewEdDSA(&replayStream{buf: seed2})
+		priv2 := ed25519.NewKeyFromSeed(seed2)
+		if kb2, err := other.MarshalBinary(); err == nil {
+			used := eddsa.NewEdDSA(&replayStream{buf: seed})
+			_, _ = used.Sign(msg)
+			if err := used.UnmarshalBinary(kb2); err != nil {
+				violationOrKnown(t, ev, "C08/eddsa/rekey", "UnmarshalBinary of another key into a used object failed: %v\n%s", err, ctx)
+			} else if s4, _ := used.Sign(msg); !bytes.Equal(s4, ed25519.Sign(priv2, msg)) {
+				violationOrKnown(t, ev, "C08/eddsa/rekey", "an EdDSA object re-keyed (seed2=%x) after signing produces %x, crypto/ed25519 under the new key gives %x\n%s", seed2, s4, ed25519.Sign(priv2, msg), ctx)
+			} else if err := eddsa.Verify(used.Public, msg, s4); err != nil {
+				violationOrKnown(t, ev, "C08/eddsa/rekey", "signature of the re-keyed object rejected: %v\n%s", err, ctx)
+			}
+		}
+	}
 	if err := eddsa.Verify(e.Public, msg, sig); err != nil {
 		violationOrKnown(t, ev, "C08/eddsa/honest", "honest signature rejected: %v\n%s", err, ctx)
 	}
